@@ -268,6 +268,28 @@ func c17Cases(c *Ctx, emit func(helperCase)) {
 			}
 		}
 	}
+	// every byte value 0..255 at every kind of place in short texts (alone, first, last, in the middle, repeated 4, 8
+	// and 16 times): a digit test that folds case, masks bits or subtracts before comparing lets bytes through that are
+	// no digits (0x10..0x19 under |0x20, 0xB0..0xB9 under &0x7f, ':'..'?' under a nibble mask, ...)
+	for b := 0; b < 256; b++ {
+		ch := string([]byte{byte(b)})
+		texts := []string{ch, "1" + ch, ch + "1", "12" + ch + "34", "ab" + ch + "c", "0" + ch, strings.Repeat(ch, 2), strings.Repeat(ch, 4), strings.Repeat(ch, 8), strings.Repeat(ch, 16), "0000000" + ch, ch + "0000000", "00000000000000" + ch + "1"}
+		for _, t := range texts {
+			note := fmt.Sprintf("byte 0x%02x in the text (hex of the text: %x)", b, t)
+			for _, op := range []string{"ParseDecimalToBigEndian8", "ParseDecimal64BigEndian", "ParseDecimalChallengeRFC6287", "ParseHexTimestamp"} {
+				emit(helperCase{Op: op, S: []string{t}, Note: note})
+			}
+			for _, n := range []int{len(t)/2 + 1, 8, 20} {
+				emit(helperCase{Op: "LeftPadHex", S: []string{t}, N: 2 * n, Note: note})
+				emit(helperCase{Op: "MustHexPadLeft", S: []string{t}, N: n, Note: note})
+			}
+			for f := 0; f < 5; f++ {
+				fields := []string{"0000000000000001", "3132333435363738", "", "", "000000000132d0b6"}
+				fields[f] = t
+				emit(helperCase{Op: "HexInputToOCRA", S: fields, Note: note})
+			}
+		}
+	}
 	emit(helperCase{Op: "LeftPadHex", S: []string{"abc"}, N: 1 << 20})
 	emit(helperCase{Op: "MustHexPadLeft", S: []string{"abc"}, N: 1 << 19})
 	// timestamps: every length 0..20 of valid hex, odd and even
@@ -411,7 +433,7 @@ func c17History(c *Ctx) {
 func init() {
 	register(&Prop{
 		ID: "C17",
-		Rule: "each helper is run on 64-bit boundary and random values, special texts, and strings of length 0..300 drawn from digit / hex / sign+space / letter classes, and compared with independent encoders (value-exact for valid text, error or documented panic for malformed text; hex timestamps of more than 16 digits: an error, or the 8-byte value when only zeros are in front; signed decimal questions: an error, or the encoding of the number written); sequential histories per helper (valid, one fault, shorter/equal/longer valid, normalisation neighbours: leading zeros, blanks, case, sign); HexInputToOCRA on all 3^5 valid/invalid/empty combinations; decimal questions of every length 1..64 go through ParseDecimalChallengeRFC6287 + GenerateOCRA and must equal the RFC 6287 reference for numeric-challenge suites of every hash and digit count; " +
+		Rule: "each helper is run on 64-bit boundary and random values, special texts, every byte value 0..255 at every kind of place in short texts, and strings of length 0..300 drawn from digit / hex / sign+space / letter classes, and compared with independent encoders (value-exact for valid text, error or documented panic for malformed text; hex timestamps of more than 16 digits: an error, or the 8-byte value when only zeros are in front; signed decimal questions: an error, or the encoding of the number written); sequential histories per helper (valid, one fault, shorter/equal/longer valid, normalisation neighbours: leading zeros, blanks, case, sign); HexInputToOCRA on all 3^5 valid/invalid/empty combinations; decimal questions of every length 1..64 go through ParseDecimalChallengeRFC6287 + GenerateOCRA and must equal the RFC 6287 reference for numeric-challenge suites of every hash and digit count; " +
 			"a reduced differential against the same reference models also runs in a binary built for GOARCH=386 (32-bit int/uint; observed.evaluations_on_a_32bit_build); " +
 			"distinct_nontrivial counts distinct (helper, arguments) cases",
 		Run: func(c *Ctx) {
